@@ -133,6 +133,8 @@ def to_dbval(it, v):
             raise_py('OverflowError', 'Python int too large to convert to SQLite INTEGER')
         return DbVal.IntV(z3.IntVal(v))
     if isinstance(v, float):
+        if v != v or v in (float('inf'), float('-inf')):
+            raise Unsupported('non-finite float bound as an SQL parameter')
         return DbVal.RealV(z3.RealVal(repr(v)))
     if isinstance(v, str):
         return DbVal.TextV(z3.StringVal(v))
@@ -816,6 +818,16 @@ class Sql:
         return ('other', e)
 
     def x_delete_in_list(self, it, T, ps, params):
+        items = ps['items']
+        if len(items) == 1 and items[0][0] == 'listhole':
+            page, col = it.st.ghost['listholes'][items[0][1]]
+            if col != 'rowid':
+                raise Unsupported('IN-list built from column %s' % col)
+            # the list enumerates exactly the rowids of the page fetched before: those rows are deleted
+            # (rows deleted meanwhile by someone else would simply not match: single connection inside
+            # the write transaction here)
+            self.delete_counted(it, T, page.member, page.n, page)
+            return []
         raise Unsupported('DELETE ... IN (list) with a concrete list')
 
 
